@@ -363,6 +363,72 @@ pub fn run_case(ctx: &Ctx, case: &Case) -> Outcome {
     out
 }
 
+// ------------------------------------------------------------------ the attacker is connected to a secondary
+// A secondary forwards some commands to the primary over its authenticated link: the `$$` rule has to hold before the
+// forward. Two-node cluster (E3), the attacker's session stays connected to the secondary; after every command the
+// cluster settles and the secure keys of BOTH nodes must be what they were.
+
+pub fn run_cluster_case(ctx: &Ctx, case: &Case) -> Outcome {
+    use crate::props::c04::boot_cluster;
+    let scratch = ctx.fresh_dir();
+    let mut c = match boot_cluster(&scratch, 2) {
+        Ok(c) => c,
+        Err(e) => {
+            ctx.drop_dir(&scratch);
+            return Outcome::failed("C08|set-up", e);
+        }
+    };
+    let auth = format!("auth {} {}", crate::node::USER, crate::node::PWD);
+    let mut setup = vec![auth.clone(), format!("create-db {} {}", DB, DBTOK), format!("use-db {} {}", DB, DBTOK), "set secret plainvalue".into(), "set a 1".into(), "set $secret single-dollar".into(), "set $$secret 41".into(), "set $$hidden h".into(), "create-user bob bobtok".into(), "create-user other othertok".into()];
+    if !case.perms.is_empty() {
+        setup.push(format!("set-permissions bob {}", case.perms));
+    }
+    c.client(0, setup);
+    let mut out = Outcome::ok(true);
+    out.classes.push("attacker-on-a-secondary");
+    if !c.run(&mut |_| 0, 400_000) {
+        out.fail = Some(("C08|set-up".into(), "the cluster did not become quiet after the set-up".into()));
+    }
+    let secure = |c: &crate::cluster::Cluster, i: usize| -> BTreeMap<String, (String, i32, bool)> { c.nodes[i].node.as_ref().unwrap().dump_db(DB).unwrap_or_default().into_iter().filter(|(k, _)| k.starts_with("$$")).collect() };
+    if out.fail.is_none() {
+        let sid = c.open_session(1);
+        let login = if case.session == "user" { format!("use-db {} bob bobtok", DB) } else { format!("use-db {} {}", DB, DBTOK) };
+        c.session_send(sid, vec![login]);
+        c.run(&mut |_| 0, 400_000);
+        let before = [secure(&c, 0), secure(&c, 1)];
+        for (i, cmd) in case.cmds.iter().enumerate() {
+            if let Cmd::AdminTouch { .. } = cmd {
+                continue;
+            }
+            let line = render(cmd);
+            let reply = c.session_send(sid, vec![line.clone()]);
+            if !c.run(&mut |_| 0, 20_000) {
+                // (e.g. the recorded resolve ping-pong: not this property's business)
+                break;
+            }
+            for node in 0..2 {
+                let now = secure(&c, node);
+                if now != before[node] {
+                    let changed: Vec<String> = now.iter().filter(|(k, v)| before[node].get(*k) != Some(v)).map(|(k, _)| k.clone()).chain(before[node].keys().filter(|k| !now.contains_key(*k)).cloned()).collect();
+                    let word = line.split(' ').next().unwrap_or("").to_string();
+                    let word = if word == "rp" { format!("rp+{}", line.split(' ').nth(2).unwrap_or("")) } else { word };
+                    out.fail = Some((format!("C08|integrity-from-a-secondary|{}", word), format!("step {}: the non-admin ({}) session on the SECONDARY sent {:?} (reply {:?}): secure keys {:?} changed on n{} ({})", i, case.session, line, reply, changed, node, if node == 0 { "the primary" } else { "the secondary" })));
+                    break;
+                }
+            }
+            if out.fail.is_some() {
+                break;
+            }
+        }
+    }
+    if out.fail.is_none() && !c.panics.is_empty() && !c.panics[0].contains("supervisor") {
+        out.fail = Some((format!("C08|panic-on-a-secondary|{}", c.panics[0].chars().skip(3).take(40).collect::<String>()), format!("{:?}", c.panics)));
+    }
+    drop(c);
+    ctx.drop_dir(&scratch);
+    out
+}
+
 /// `remove $$token` is refused for administrators too
 fn token_guard(ctx: &Ctx) -> Outcome {
     let dir = ctx.fresh_dir();
@@ -434,6 +500,25 @@ pub fn run(ctx: &Ctx, rep: &mut Report) {
         });
         explore(ctx, rep, "pairs-over-http", n, strat, |c| run_http_case(&pair, c));
     }
+    if rep.failures.is_empty() {
+        // every single command from a session connected to a secondary of a 2-node cluster, then generated sequences
+        let mut cases = vec![];
+        for s in ["dbtoken", "user"] {
+            for p in ["", "rwix *"] {
+                for c in single_commands().iter() {
+                    if let Cmd::Rp { .. } = c {
+                        continue;
+                    }
+                    cases.push(Case { session: s.to_string(), perms: p.to_string(), cmds: vec![c.clone()] });
+                }
+            }
+        }
+        enumerate(ctx, rep, "single-commands-on-a-secondary", cases.into_iter(), |c| run_cluster_case(ctx, c));
+        if rep.failures.is_empty() {
+            let n = ctx.amount(600, 20_000);
+            crate::report::explore_with(ctx, rep, "sequences-on-a-secondary", n, 100, case_strategy(), |c| run_cluster_case(ctx, c));
+        }
+    }
     if ctx.worker == 0 && rep.failures.is_empty() {
         enumerate(ctx, rep, "token-guard", std::iter::once(0u8), |_| token_guard(ctx));
     }
@@ -443,6 +528,9 @@ pub fn replay(ctx: &Ctx, engine: &str, case: &J) -> Result<Option<(String, Strin
     crate::interpose::virtual_clock(true);
     if engine == "token-guard" {
         return Ok(token_guard(ctx).fail);
+    }
+    if engine.ends_with("on-a-secondary") {
+        return replay_guarded::<Case>(ctx, case, |c| run_cluster_case(ctx, c));
     }
     if engine == "pairs-over-http" {
         let pair = start_http_pair(ctx);
